@@ -336,7 +336,7 @@ pub fn run(sut: &dyn Sut, tier: Tier) -> ! {
     let mut stats = Stats::new();
     run.canaries(&mut |v| eval_replay(sut, v));
     let rounds = tier.pick(1, 4);
-    let n = tier.pick(240, 1600);
+    let n = tier.pick(800, 1600);
     for r in 0..rounds {
         if run_round(&C12, sut, &mut run, &mut stats, r as u64 + 1, n, (60, 200)) {
             break;
